@@ -77,6 +77,9 @@ fn parse_num(s: &str) -> Result<f64, String> {
         return Err(format!("mantissa too large {}", s));
     }
     let mut x = m as f64;
+    if m == 0 && s.starts_with('-') {
+        return Ok(-0.0);
+    }
     while e > 1000 {
         x *= 2f64.powi(1000);
         e -= 1000;
@@ -502,6 +505,14 @@ fn run_orient<F: Fl>(t: &mut Toks) -> Result<String, String> {
     let c = t.coord::<F>()?;
     let s = verif::signed_area(a, b, c);
     Ok((if s > 0.0 { "+" } else if s < 0.0 { "-" } else { "0" }).to_string())
+}
+
+/// NEXTAFTER: the helper's one-ulp steps in both directions
+fn run_nextafter<F: Fl>(t: &mut Toks) -> Result<String, String> {
+    let x = F::from64(t.num()?);
+    let up = verif::NextAfter::nextafter(x, true);
+    let down = verif::NextAfter::nextafter(x, false);
+    Ok(format!("OK {} {}", show_num(up.to64()), show_num(down.to64())))
 }
 
 /// PI: two segments with in_out flags; runs possible_intersection and dumps both segments' chains
@@ -1040,6 +1051,8 @@ fn dispatch(req: &str, prior: &HashMap<usize, String>) -> String {
                 ("ISECT", "f32") => run_isect::<f32>(&mut t),
                 ("ORIENT", "f64") => run_orient::<f64>(&mut t),
                 ("ORIENT", "f32") => run_orient::<f32>(&mut t),
+                ("NEXTAFTER", "f64") => run_nextafter::<f64>(&mut t),
+                ("NEXTAFTER", "f32") => run_nextafter::<f32>(&mut t),
                 ("ORDLAWS", "f64") => run_ordlaws::<f64>(&mut t),
                 ("ORDLAWS", "f32") => run_ordlaws::<f32>(&mut t),
                 ("PI", "f64") => run_pi::<f64>(&mut t),
@@ -1102,6 +1115,30 @@ fn hist_main(args: &[String]) {
             let got = dispatch(&reqs[i], &empty);
             executions += 1;
             report(i, "after-large-call", &got, &base[i]);
+        }
+    }
+    // a large call, 254 small calls, the large call again (state keyed by a small per-thread call counter
+    // would wrap around here); "large" / "small" by request length
+    if !reqs.is_empty() {
+        let mut idx: Vec<usize> = (0..reqs.len()).filter(|i| base[*i].starts_with("OK ev=") && !base[*i].starts_with("OK ev=0 ")).collect();
+        idx.sort_by_key(|i| base[*i].len());
+        if idx.len() >= 2 {
+            let big = *idx.last().unwrap();
+            let smalls: Vec<usize> = idx.iter().take(8).cloned().collect();
+            for gap in [253usize, 254, 255, 256] {
+                let got = dispatch(&reqs[big], &empty);
+                executions += 1;
+                report(big, "before-small-calls", &got, &base[big]);
+                for j in 0..gap {
+                    let i = smalls[j % smalls.len()];
+                    let got = dispatch(&reqs[i], &empty);
+                    executions += 1;
+                    report(i, "small-call", &got, &base[i]);
+                }
+                let got = dispatch(&reqs[big], &empty);
+                executions += 1;
+                report(big, "after-many-small-calls", &got, &base[big]);
+            }
         }
     }
     // concurrently
